@@ -357,6 +357,10 @@ func c13Gen(tier string, emit func(any)) {
 				}
 				for _, m := range modes {
 					emit(&C13Case{Base: b.id, Steps: steps, BaseText: baseText, Variant: c13Text(lines), File: f, Desc: c13Desc(lines), Mode: m})
+					if len(steps) <= 1 {
+						// the same patch file without its final newline
+						emit(&C13Case{Base: b.id, Steps: append(append([]string{}, steps...), "no-final-newline"), BaseText: baseText, Variant: strings.TrimSuffix(c13Text(lines), "\n"), File: f, Desc: c13Desc(lines), Mode: m})
+					}
 				}
 			}
 		}
